@@ -148,6 +148,12 @@ unknown_field:
 
 			if (itr->_ftype != FieldTrait::ft_Length || tv == Common_BodyLength) // this type expects next field to be data
 				break;
+			{
+				// a length typed field that has no data partner in this message (eg. MaxMessageSize) is an ordinary field
+				Presence::const_iterator ditr(_fp.get_presence().find(tv + 1));
+				if (ditr == _fp.get_presence().end() || ditr->_ftype != FieldTrait::ft_data)
+					break;
+			}
 
 			const unsigned val_sz(fast_atoi<unsigned>(val));
 			if(val_sz > FIX8_MAX_FLD_LENGTH - 1)
